@@ -222,6 +222,19 @@ def posnode(p0=None, p1=None, /, uid=None, a=None, *va, **vk):
   return _r.rec('posnode', locals())
 
 
+SHARED_DEFAULT = ['shared', 'default']
+
+
+def mutdef(a=SHARED_DEFAULT, b=SHARED_DEFAULT, c=(1, 2), d=None):
+  """Defaults that are a shared mutable object."""
+  return _r.rec('mutdef', locals())
+
+
+def booldef(p=1, q=0.0, r=True, s=''):
+  """Defaults that are == to values of other types (1 == True == 1.0, 0.0 == False == 0)."""
+  return _r.rec('booldef', locals())
+
+
 def fresh_list():
   return _r.rec('fresh_list', {})
 
